@@ -9,7 +9,10 @@ from . import rules_exec_loops as L
 
 
 def _is_running_load(f, c):
-    """the load's receiver derives from a field / variable named `running`"""
+    """the load is on an AtomicBool (the only atomic flag of the executors is the interrupt flag)"""
+    ts = c.func.get("res_targs") or c.targs
+    if ts[:1] == ["bool"] or "AtomicBool" in short(c.name):
+        return True
     for o in F.origins(f, c.args[0], depth=10):
         if o.kind in ("arg", "place") and o.place is not None:
             if "running" in place_fields(o.place) or f.local_name(o.place["l"]) == "running":
